@@ -386,12 +386,6 @@ example : ∃ fp, Lemire.lemire FTy.f64 ⟨1234567890123456789, -18, false, true
 
 /-! ## truncated mantissas the wrapper does not decide: the slow path -/
 
-/-- the digit-count condition of the slow-path model: at most `max_digits` significant digits (769 for `f64`, 114 for
-`f32`), or only zeros beyond (`Props.C01Slow.truncation_invariant` is what would remove it) -/
-def FewDigits (c : Cfg) (F : FTy) (n : Number) : Prop :=
-  ∀ d, (Slow.envOf c.feats).S.maxDigits F.fmt 10 = some d →
-    (sigBytes n.integer n.fraction).length ≤ d ∨ Slow.anyNonzero ((sigBytes n.integer n.fraction).drop d) = false
-
 /-- **a truncated decimal `Number`, decided or not**: `lemire` answers (no panic); a valid answer is right
 (`numberToFloat_truncated_decided`); an invalid-marked one is an estimate of `w·10^q` from inside the table
 (`C01Trunc.lemire_truncated`), with which the slow-path model returns the float nearest to the value of all the digits
@@ -405,8 +399,7 @@ theorem numberToFloat_truncated {F : FTy} (hF : IsLemireFloat F) (c : Cfg)
     (hq : n.exponent = ((sigBytes n.integer n.fraction).length : Int) - 19 + n.explicitExp -
       ((n.fraction.getD []).length : Int))
     (hE1 : -(2 ^ 40 : Int) ≤ n.explicitExp) (hE2 : n.explicitExp ≤ 2 ^ 40)
-    (hl1 : n.integer.length < 2 ^ 60) (hl2 : (n.fraction.getD []).length < 2 ^ 60)
-    (hfew : FewDigits c F n) :
+    (hl1 : n.integer.length < 2 ^ 60) (hl2 : (n.fraction.getD []).length < 2 ^ 60) :
     numberToFloat slowModel c F n false = some (numberBits c F.fmt n) := by
   have hw0 : n.mantissa ≠ 0 := by
     have : 0 < 10 ^ 18 := Nat.pow_pos (by decide)
@@ -424,7 +417,7 @@ theorem numberToFloat_truncated {F : FTy} (hF : IsLemireFloat F) (c : Cfg)
     obtain ⟨hq1, hq2, p, eb, lay, hest⟩ := hfacts hinv
     obtain ⟨d, hd, hd19, hd769⟩ := C01Trunc.maxDigits_decimal_le c.feats hF
     obtain ⟨D, hbr⟩ := C01Trunc.slowDomain_of_truncated hF lay c hr hb n hs hN hw hw1 hwlt hq hq1 hq2 fp hest d hd
-      hd19 hd769 (hfew d hd)
+      hd19 hd769
     -- the specification side
     have hbits : numberBits c F.fmt n = litBits F.fmt 10 10 (numberLit c n) := by
       unfold numberBits numberLit
@@ -453,19 +446,18 @@ theorem numberToFloat_truncated {F : FTy} (hF : IsLemireFloat F) (c : Cfg)
     rw [if_pos hinv, slowPath_generic slowModel c D.env, toNative_eq F _ n.isNegative hslow, hbits, hlit]
     rfl
 
-/-- **`C01_decimal_correct_slow`** — the decimal theorem for **every** input, truncated mantissas included, whether or not
-the two-pass wrapper decides: non-`compact` build, radix 10, separator-free format class, `f32`/`f64`, complete and
-partial parser. `parseFloatAlgoModel slowModel` — syntax → `try_fast_path` → `lemire` (both passes, `compute_error`) →
-`slow_radix` (`parse_mantissa`, `positive_digit_comp` / `negative_digit_comp`, big-integer arithmetic with its capacity
-checks) → `to_native` — prints what the specification prints. The one residual hypothesis concerns truncated `Number`s
-only: `hfew` (at most `max_digits` significant digits — 769 for `f64`, 114 for `f32` — or zeros beyond). -/
+/-- **`C01_decimal_correct_slow`** — decimal string→float is correctly rounded for **every** input of a non-`compact`
+build: any number of digits, truncated mantissas whether or not the two-pass wrapper decides; radix 10, separator-free
+format class, `f32`/`f64`, complete and partial parser, inputs shorter than `2^60` bytes.
+`parseFloatAlgoModel slowModel` — syntax → `try_fast_path` → `lemire` (both passes, `compute_error`) → `slow_radix`
+(`parse_mantissa` with its digit limit, `positive_digit_comp` / `negative_digit_comp`, big-integer arithmetic with its
+capacity checks) → `to_native` — prints exactly what the specification prints: `Spec.litBits` of the digit content, the
+same count, the same errors. **No residual hypothesis.** -/
 theorem C01_decimal_correct_slow (feats : Features) (hcompact : feats.compact = false) (fmt : Format)
     (hr : fmt.mantissaRadix = 10) (hb : fmt.exponentBase = 10)
     (hclass : feats.format = false ∨ C12.SepPrefixFree fmt)
     (o : POpts) {F : FTy} (hF : IsLemireFloat F) (isPartial : Bool) (s : List Nat)
-    (h256 : ∀ x ∈ s, x < 256) (hlen : s.length < 2 ^ 60)
-    (hfew : ∀ n cnt, parseFloatSyntax ⟨feats, fmt, false⟩ o isPartial s (formatError feats fmt).isNone =
-      .ok (.number n cnt) → n.manyDigits = true → FewDigits ⟨feats, fmt, false⟩ F n) :
+    (h256 : ∀ x ∈ s, x < 256) (hlen : s.length < 2 ^ 60) :
     parseFloatAlgoModel slowModel feats fmt o isPartial F s = parseFloatModel feats fmt o isPartial F.fmt s := by
   apply parseFloatAlgoModel_eq_valid
   intro hval n cnt hp
@@ -482,19 +474,24 @@ theorem C01_decimal_correct_slow (feats : Features) (hcompact : feats.compact = 
     obtain ⟨hs, hN, hw, hw1, hwlt, hq, hE1, hE2, hl1, hl2⟩ := C01Number.number_truncated_of_syntax ⟨feats, fmt, false⟩ rfl
       hclass hr hb o hdp isPartial s _ h256 hlen n cnt hp hmany
     exact numberToFloat_truncated hF ⟨feats, fmt, false⟩ hcompact hr hb n hmany hs hN hw hw1 hwlt hq
-      hE1 hE2 hl1 hl2 (hfew n cnt hp hmany)
+      hE1 hE2 hl1 hl2
 
-/-- **full statement** (a `Prop`): the same for **every** input, truncated mantissas (more than 19 significant digits)
-included, and for `compact` builds. Proved towards it: untruncated inputs (`C01_decimal_correct`), truncated inputs on
-which the two-pass wrapper decides (`C01_decimal_correct_all`), and truncated inputs handed to the slow path
-(`C01_decimal_correct_slow`) with at most `max_digits` significant digits. Missing:
-`Props.C01Slow.truncation_invariant` (a non-zero cut tail beyond `max_digits`) and `compact` builds (the Bellerophon
-analogue of `lemire_estimate_facts`). -/
+/-- **full statement** (a `Prop`): the same for `compact` builds too. `C01_decimal_full_partial` proves it for every
+non-`compact` build; for `compact` builds the moderate path is Bellerophon (`bellerophon_sound` is proved), and what is
+missing is the Bellerophon analogue of `lemire_estimate_facts` / `C01Trunc.lemire_truncated` for its invalid-marked answers. -/
 def C01_decimal_full : Prop :=
   ∀ (feats : Features) (fmt : Format), fmt.mantissaRadix = 10 → fmt.exponentBase = 10 →
     (feats.format = false ∨ C12.SepPrefixFree fmt) →
     ∀ (o : POpts) (F : FTy), IsLemireFloat F → ∀ (isPartial : Bool) (s : List Nat),
       (∀ x ∈ s, x < 256) → s.length < 2 ^ 60 →
       parseFloatAlgoModel slowModel feats fmt o isPartial F s = parseFloatModel feats fmt o isPartial F.fmt s
+
+/-- the full statement restricted to non-`compact` builds is a theorem -/
+theorem C01_decimal_full_partial (feats : Features) (hcompact : feats.compact = false) (fmt : Format)
+    (hr : fmt.mantissaRadix = 10) (hb : fmt.exponentBase = 10) (hclass : feats.format = false ∨ C12.SepPrefixFree fmt)
+    (o : POpts) (F : FTy) (hF : IsLemireFloat F) (isPartial : Bool) (s : List Nat)
+    (h256 : ∀ x ∈ s, x < 256) (hlen : s.length < 2 ^ 60) :
+    parseFloatAlgoModel slowModel feats fmt o isPartial F s = parseFloatModel feats fmt o isPartial F.fmt s :=
+  C01_decimal_correct_slow feats hcompact fmt hr hb hclass o hF isPartial s h256 hlen
 
 end LexVerif.Props.C01Final
